@@ -651,6 +651,7 @@ def gen_text():
     tx = text_facts(notes)
     nm = norm_facts()
     rd = reader_facts()
+    rdo = observe.observe_reader()
     pairs = lambda tbl: ctlist("(%s, %s)" % (ctext(a), ctext(b)) for a, b in tbl)  # noqa: E731
     out = HEADER
     out += "From Coq Require Import List Bool NArith.\nImport ListNotations.\nFrom FR Require Import Csv.\nOpen Scope N_scope.\n\n"
@@ -687,6 +688,8 @@ def gen_text():
     out += "Definition gen_isdecimal : N -> bool := in_ranges gen_decimal_ranges.\n"
     out += "(* CsvfileReader: number of characters handed to csv.Sniffer *)\n"
     out += "Definition gen_sniff_sample : N := %d.\n" % rd["sample"]
+    out += "(* observed on constructed files: a file whose first row consists of field names is read in the writer's dialect *)\n"
+    out += "Definition gen_reader_excel_on_field_names : bool := %s.\n" % cbool(rdo["excel_on_names"])
     write_if_changed(GEN / "Gen_text.v", out)
 
 
